@@ -1,2 +1,4 @@
+import Props.C02
 import Props.C06
 import Props.C11
+import Props.C15
